@@ -54,6 +54,10 @@ EXTRA = [
     ((3, 8, 1, 1, None, [0.3, -0.01, -0.3]), {"offgrid": True}),
     ((2, 8, 1, 1, None, [0.3, 1e-7, -1e-7, -0.3]), {}),
     ((2, 20, 1, 1, None, [0.3, -1e-7, -0.3]), {}),
+    # a crossing that is shallower than the MPS precision at the end of a step (gap -1e-6 with precision 1e-5): it is a crossing all the same
+    ((2, 2, 2, 2), {"out": [0.3, -1e-6, 1e-6, -0.3], "out_cost": [0, 1, 0, 1]}),
+    ((2, 8, 2, 1), {"out": [0.3, -1e-6, -0.3], "out_cost": [0, 1, 1]}),
+    ((3, 2, 2, 1), {"out": [0.3, -1e-6, -0.3], "out_cost": [0, 1, 1]}),
 ]
 THOROUGH = QUICK + [
     (2, 1, 3, 3), (2, 2, 3, 3), (2, 2, 2, 3), (2, 8, 1, 3, [0.3, -0.3]), (2, 8, 2, 2, [0.3, -0.3]), (2, 8, 3, 1), (2, 20, 1, 2, [0.3, -0.3]), (2, 0.5, 2, 3),
@@ -68,7 +72,7 @@ def bounds(tier, seed):
         "answers_outside_a_search": OUT,
         "answers_inside_the_first_search": [0.3, 0.01, -0.01, -0.3],
         "exact_zero_answer": "thorough, 2 atoms, dt <= 2, bound 1",
-        "extra_rows": "last step half as long as dt (3 rows); first step cut at 0.45 dt by an off-grid evaluation time (3 rows); ordinates of magnitude 1e-7 inside a search (2 rows)",
+        "extra_rows": "last step half as long as dt (3 rows); first step cut at 0.45 dt by an off-grid evaluation time (3 rows); ordinates of magnitude 1e-7 inside a search (2 rows); step-end gaps of +-1e-6, below the MPS precision (3 rows)",
     }
 
 
@@ -163,8 +167,8 @@ def _path(case, chooser):
                     k = chooser.choose(len(alph), [0] * len(alph))
                     gap = alph[k]
                 else:
-                    alph = OUT + ([0.0] if case.get("zero") else [])
-                    k = chooser.choose(len(alph), OUT_COST + ([0] if case.get("zero") else []))
+                    alph = list(case.get("out") or OUT) + ([0.0] if case.get("zero") else [])
+                    k = chooser.choose(len(alph), list(case.get("out_cost") or OUT_COST) + ([0] if case.get("zero") else []))
                     gap = alph[k]
                     if gap < 0:
                         searches[0] += 1
